@@ -37,7 +37,7 @@ struct FileCases {
     extras: Vec<(usize, u8, usize, usize)>,
 }
 
-const EXTRA_KINDS: [&str; 6] = ["truncate-midline", "xml-empty-text", "xml-remove-attribute", "cut-line-midway", "cut-line-at-a-quarter", "cut-line-at-three-quarters"];
+const EXTRA_KINDS: [&str; 7] = ["truncate-midline", "xml-empty-text", "xml-remove-attribute", "cut-line-midway", "cut-line-at-a-quarter", "cut-line-at-three-quarters", "reference->name-of-its-own-block"];
 
 const NUM_REPL: [&str; 6] = ["abc", "1e39", "-1", "99999999", "0", "NaN"];
 
@@ -204,6 +204,22 @@ impl FileCases {
             }
         }
         let mut extras = vec![];
+        // a reference (or the PREVIOUS storey of a FLOOR) renamed to the name of the block that holds it
+        for (ba, bb) in &blocks {
+            for li in (*ba + 1)..=*bb {
+                let l = &lines[li];
+                if let Some((k, v)) = l.split_once('=') {
+                    let k = k.trim();
+                    if (bdl::REF_KEYS.contains(&k) || k == "PREVIOUS") && v.matches('"').count() == 2 {
+                        if let (Some(q1), Some(q2)) = (l.find('"'), l.rfind('"')) {
+                            if q2 > q1 + 1 && q1 > l.find('=').unwrap_or(0) {
+                                extras.push((li, 6u8, q1 + 1, q2));
+                            }
+                        }
+                    }
+                }
+            }
+        }
         for (li, l) in lines.iter().enumerate() {
             if l.len() >= 2 {
                 let mut cut = l.len() / 2;
@@ -316,6 +332,9 @@ impl FileCases {
                         if kind == 0 {
                             ls.truncate(l + 1);
                             ls[l] = self.lines[l][..a].to_string();
+                        } else if kind == 6 {
+                            let own = self.blocks.iter().find(|(x, y)| *x < l && l <= *y).map(|(x, _)| self.lines[*x].split('"').nth(1).unwrap_or("").to_string()).unwrap_or_default();
+                            ls[l] = format!("{}{}{}", &self.lines[l][..a], own, &self.lines[l][b..]);
                         } else {
                             ls[l] = format!("{}{}", &self.lines[l][..a], &self.lines[l][b..]);
                         }
